@@ -139,12 +139,19 @@ def g4_expr(vals):
     return "G4 { x: %d.0, y: %d.0, n: %d, m: %d, k: 0.0 }" % tuple(v)
 
 
+def g4_expr_base(vals):
+    """a struct literal that lists only x and takes the rest from a base value (functional update syntax)"""
+    v = [x[0] if x else 0 for x in vals]
+    return "G4 { x: %d.0, ..G4 { x: -1.0, y: %d.0, n: %d, m: %d, k: 0.0 } }" % (v[0], v[1], v[2], v[3])
+
+
 def block_tokens(b):
     d = b["def"]
     parts = []
     if d["form"] == "state": parts.append("default(S4::S%d)" % d["st"])
     elif d["form"] == "inline": parts.append("default(S4::S%d, %s)" % (d["st"], fields_tokens(d["vals"])))
     elif d["form"] == "expr": parts.append("default(S4::S%d, %s)" % (d["st"], g4_expr(d["vals"])))
+    elif d["form"] == "exprbase": parts.append("default(S4::S%d, %s)" % (d["st"], g4_expr_base(d["vals"])))
     for arm in b["arms"]:
         sts = " | ".join("S4::S%d" % s for s in arm["sts"])
         body = bsentence(arm["body"][0]) if len(arm["body"]) == 1 else "[ " + ", ".join(bsentence(x) for x in arm["body"]) + " ]"
@@ -157,7 +164,7 @@ def block_twin(b, s0):
     if d["form"] in ("none", "state"): dv = "G4::default()"
     elif d["form"] == "inline":
         dv = "{ let mut d = G4::default(); " + " ".join("d.%s = %s;" % (FIELDS[i], ("%d.0" % v[0]) if i < 2 else str(v[0])) for i, v in enumerate(d["vals"]) if v) + " d }"
-    else: dv = g4_expr(d["vals"])
+    else: dv = g4_expr(d["vals"])      # expr / exprbase: the same value, written out in full
     out = "{ let dv: G4 = %s; StateAnimatorBuilder::new().from_state(S4::S%d).from_values(dv.clone())" % (dv, s0)
     for arm in b["arms"]:
         for s in arm["sts"]:
